@@ -69,6 +69,13 @@ def main():
     d = ctx.tmp('witness'); pw = routes.aldor(b, ['-Gloop'], d, stdin=W.encode(), timeout=120)
     if marks(pw.out) != ['in', 'caught', 'fin', 'after']:
         ctx.violation('witness:try-catch-step-refused', 'a try/catch/finally step: got marker lines %s' % marks(pw.out), {'session.txt': W, 'output.txt': pw.out[-2000:]})
+    # regression sessions: inputs that once broke the loop (fixed in the repository); each prints its expected lines
+    for name, want in (('or-operand-import.gloop', ['3']),):
+        W2 = open(os.path.join(VERIF, 'known', 'C13', name)).read()
+        d = ctx.tmp('reg'); p2 = routes.aldor(b, ['-Gloop'], d, stdin=W2.encode(), timeout=120); n += 1
+        got2 = [l.strip() for l in p2.out.decode(errors='replace').split('\n') if l.strip() in want]
+        if fault_text(p2) or p2.sig or got2 != want:
+            ctx.violation('fault:loop', 'regression session %s: %s %s, output lines %s' % (name, p2.cause, fault_text(p2), got2), {'session.txt': W2, 'output.txt': p2.out[-2000:]})
     ctx.sample({'program': progs[0][0], 'erroneous_forms': BAD[:4]})
     ctx.assumptions += ['only programs that end normally are used (an uncaught exception stops a batch run but not a session)', 'erroneous forms are inserted between top-level statements of the main part']
     ctx.finish(n, len(progs), 'one evaluation = one session (or batch run) whose marker lines are compared with the reference evaluator\'s output; distinct = programs',
